@@ -853,6 +853,9 @@ class SRPKeyExchange(KeyExchange):
 
     def makeServerKeyExchange(self, sigHash=None):
         """Create SRP version of Server Key Exchange"""
+        if self.clientHello.srp_username is None:
+            # SRP suite selected but no srp extension in the ClientHello
+            raise TLSUnknownPSKIdentity("No SRP identity in ClientHello")
         srpUsername = bytes(self.clientHello.srp_username)
         #Get parameters from username
         try:
